@@ -189,6 +189,13 @@ def check_one(spec, got, rs, printed, label=""):
     return "ok"
 
 
+def root_key_repeated(doc):
+    """the subscription selects its single response key more than once (merged by CollectFields)"""
+    def count(sels):
+        return sum(count(x["sels"]) if x["k"] == "inline" else 1 for x in sels)
+    return any(d["k"] == "op" and d["type"] == "subscription" and count(d["sels"]) > 1 for d in doc["defs"])
+
+
 def is_nontrivial(spec, pattern):
     ev = spec["events"]
     nids_with_fault = {f[0][1] for f in spec.get("faults") or ()}
@@ -307,7 +314,8 @@ def case(c, stats):
                            {"query": print_document(spec2["doc"]).text, "variables": spec2["variables"], "first_variables": spec["variables"]})
         prev = spec if not spec.get("invalid") else prev
         stats.case({"d": spec["doc"], "v": spec["variables"], "e": spec["events"], "f": spec["faults"], "p": pattern, "s": schema["types"]}, is_nontrivial(spec, pattern),
-                   ["pattern:" + pattern, "kind:" + kind, "events:%d" % len(spec["events"]), "falsy_event:%s" % any(not isinstance(e, int) for e in spec["events"]), "decoy_initial_value:%s" % (spec.get("decoy") is not None), "outcome:" + str(outcome), "faults:%d" % len(spec["faults"])],
+                   ["pattern:" + pattern, "kind:" + kind, "events:%d" % len(spec["events"]), "falsy_event:%s" % any(not isinstance(e, int) for e in spec["events"]), "decoy_initial_value:%s" % (spec.get("decoy") is not None), "outcome:" + str(outcome), "faults:%d" % len(spec["faults"]),
+                    "root_key_repeated:%s" % (kind == "valid" and root_key_repeated(spec["doc"]))],
                    {"query": print_document(spec["doc"]).text, "variables": spec["variables"], "events": len(spec["events"]), "faults": spec["faults"], "pattern": pattern})
 
 
